@@ -30,6 +30,9 @@ THEOREMS = [
     "RedunModel.C10.refuted_glue_in_hand",
     "RedunModel.C10.conservation",
     "RedunModel.C10.reported_at_most_once",
+    "RedunModel.C10.no_lost_job_partial",
+    "RedunModel.C10.no_monitor_crash_partial",
+    "RedunModel.C10.wf_variants",
     "RedunModel.C10.locked_no_lost_job",
 ]
 VARIANTS = ["docker", "batch", "k8s", "gcp", "glue"]
@@ -61,12 +64,17 @@ LEVEL_TEXT = ("Proved in Lean: refuted_docker / refuted_aws_batch / refuted_k8s 
               "thread holds the only job between popleft and running_glue_jobs[...] = job): the target C10_no_lost_job is "
               "FALSE for all five executors as found. conservation / reported_at_most_once: for EVERY variant and every "
               "interleaving a recorded job is in exactly one of queue / pending / in hand / reported (so a lost job stays "
-              "visible in the pending map, it is never dropped or double reported). locked_no_lost_job: the hand-off "
+              "visible in the pending map, it is never dropped or double reported). no_lost_job_partial (+ "
+              "no_monitor_crash_partial, wf_variants): for Docker, AWS Batch, K8S and GCP Batch that window is the ONLY way "
+              "to lose a job — in every interleaving in which no job is recorded while a monitor is between its failed "
+              "loop test and the point where _start would start a new thread, nothing is lost and no monitor crashes "
+              "(not covered: Glue, which has the second loss mode). locked_no_lost_job: the hand-off "
               "done under one lock (monitor: loop test and clearing the flag; submitter: flag test, set, thread start) "
               "loses no job in any interleaving — the specification of the repair. Tie: line-by-line lockstep of the "
               "five real executor classes with the model under controlled schedules.")
 LEVEL_NOTE = ("partial: on the unchanged tree the property is violated (known finding family, see findings_proposed/C10.json); "
-              "the universally quantified theorems are conservation and the repair specification, not the target. The "
+              "the universally quantified theorems are conservation, the partial theorem (no loss outside the window) and the "
+              "repair specification, not the target. The "
               "model cannot exhibit: real cloud latency/failures, script tasks, reunited in-flight jobs, debug (local "
               "docker) mode, external stop(), pre-emption inside a line, and the arrayer's internals (C11).")
 TECHNIQUE = "Lean 4 line-level interleaving model (5 variants) + closed counter-example traces + sys.monitoring lockstep replay"
